@@ -96,10 +96,21 @@ VARIANTS = [
     ("C09", "zeta branch decided by the real part of romega", TRI, r"if r != 0:", "if romega.real != 0:", "F"),
     ("C09", "vector zero test spelled alpha <= 0 (equivalent)", TRI, r"if alpha == 0:", "if alpha <= 0:", "S"),
     ("C10", "zeta branch decided by one component of romega", TRI, r"if r != 0:", "if romega.w != 0:", "F"),
+    ("C08", "diagnostics branch re-orders the returned eigenvalues", EIG,
+     r'        print\("Eigendecomposition of tridiagonal matrix completed"\)\n',
+     '        print("Eigendecomposition of tridiagonal matrix completed")\n        eigenvalues = eigenvalues[::-1]\n', "F"),
+    ("C08", "diagnostics branch computes a value it only prints (equivalent)", EIG,
+     r'        print\("Eigendecomposition of tridiagonal matrix completed"\)\n',
+     '        print("Eigendecomposition of tridiagonal matrix completed")\n        largest = eigenvalues[-1]\n        print(largest)\n', "S"),
     ("C09", "accumulation order", HES, r"P = quat_matmat\(Hk, P\)", "P = quat_matmat(P, Hk)", "F"),
     ("C09", "one-sided update", HES, r"H = quat_matmat\(quat_matmat\(Hk, H\), Hk_H\)", "H = quat_matmat(Hk, H)", "F"),
     ("C09", "clean-up predicate", HES, r"if i > j \+ 1:\n                hij = H_clean", "if i > j:\n                hij = H_clean", "F"),
     ("C09", "no defensive copy needed (rebinding only)", HES, r"H = A\.copy\(\)\n    P = np", "H = A\n    P = np", "S"),
+    ("C10", "windowed sweep updates the rows only inside the window", SCH, r"                    apply_left_rows\(H, s, Hj_sub\)\n                    apply_right_cols\(H, s, Hj_sub\)\n                    apply_right_cols\(Q_accum, s, Hj_sub\)",
+     "                    apply_left_rows(H[:, start:], s, Hj_sub)\n                    apply_right_cols(H, s, Hj_sub)\n                    apply_right_cols(Q_accum, s, Hj_sub)", "F"),
+    ("C09", "reduction skips columns that are already reduced (equivalent)", HES,
+     r"        if col_segment\.shape\[0\] <= 1:\n            continue  # nothing to zero\n",
+     "        if col_segment.shape[0] <= 1:\n            continue  # nothing to zero\n        if not np.any(quaternion.as_float_array(H[k + 2 :, k])):\n            continue\n", "S"),
     ("C10", "accumulator order", SCH, r"Q_accum = quat_matmat\(Q_accum, HjH\)", "Q_accum = quat_matmat(HjH, Q_accum)", "F"),
     ("C10", "shift not restored", SCH, r"H\[i, i\] = H\[i, i\] \+ qsigma", "H[i, i] = H[i, i] + 0 * qsigma", "F"),
     ("C10", "unguarded deflation", SCH, r'if variant in \("aed", "ds"\) and sv_sq <= bound_sq:', 'if variant in ("aed", "ds"):', "F"),
